@@ -171,10 +171,12 @@ type Struct struct {
 	Type   types.Type
 	Fields map[string]Value
 	ID     string // identity tag for structs built by the environment
+	// Aux carries what a model knows about the value without relying on the names of its fields.
+	Aux map[string]Value
 }
 
 func (s *Struct) Copy() *Struct {
-	c := &Struct{Type: s.Type, Fields: map[string]Value{}, ID: s.ID}
+	c := &Struct{Type: s.Type, Fields: map[string]Value{}, ID: s.ID, Aux: s.Aux}
 	for k, v := range s.Fields {
 		if sv, ok := v.(*Struct); ok {
 			v = sv.Copy()
